@@ -112,7 +112,14 @@ def run(ctx):
     t_len, b_len = table('make_secure_channel_keys')
     # make_secure_channel_keys arm values are the (key, block) tuples: read them from the tuple aggregates per arm
     enc = {}
+    # the table may sit in make_secure_channel_keys itself or in a helper of SecurityPolicy it calls for the two lengths
+    cand = [b_len] if b_len is not None else []
     if b_len is not None:
+        for c in b_len.calls():
+            hb = db.body(c.callee) if c.callee.startswith(SP) else None
+            if hb is not None and hb.locals[0].replace(' ', '') == '(usize,usize)':
+                cand.append(hb)
+    for b_len in cand:
         Fm = ctx.facts(b_len)
         for bi, blk in enumerate(b_len.blocks):
             t = blk['t']
